@@ -14,6 +14,8 @@ import OAP.Model.Ring
 import OAP.Model.Stream
 import OAP.Proofs.Ring
 import OAP.Proofs.Stream
+import OAP.Proofs.StreamComplete
+import OAP.Props.C02
 namespace OAP.C03
 open OAP OAP.Frame
 
@@ -253,5 +255,177 @@ example : (feed .v1 gz0 0 [[3, 7, 0], [0, 2, 9], [8]]).obs =
 /-- the ring with r = 6 after the move wraps inside the frame -/
 example : (((Ring.new 8).write [1, 2, 3, 4, 5, 6]).read 6).toOption.map (fun x => (x.2.r, x.2.w, x.2.isEmpty)) =
     some (6, 6, true) := by decide
+
+/-! ### Layer 4: back-to-back frames — the stream yields what each frame yields on its own -/
+
+/-- COMPLETENESS of one call: a valid layout frame at the head of the queue, followed by ANY bytes
+(the next frame, a partial frame, nothing), is delivered by one call from a fresh context as
+exactly `packetOf` — the packet `C02.decode_accepts` says the one-shot decoder returns on the
+frame alone — with nothing parked and exactly the following bytes left in the queue -/
+theorem decode_accepts_stream (v : Ver) (gz : GzOracle) (codec : UInt8) (f : Spec.Frame) (content : Bytes)
+    (ps : List Metadata.Pair) (rest : Bytes) (hv : ValidFrame v gz f content ps) :
+    unpackAbs v gz codec none (Spec.encode v f ++ rest) = (.pkt (packetOf f codec content ps), none, rest) :=
+  Frame.decode_accepts_stream v gz codec f content ps rest hv
+
+/-- … and over the ring: any well-formed ring (any geometry) holding such bytes -/
+theorem decode_accepts_ring (v : Ver) (gz : GzOracle) (codec : UInt8) (f : Spec.Frame) (content : Bytes)
+    (ps : List Metadata.Pair) (rest : Bytes) (hv : ValidFrame v gz f content ps) (rb : Ring) (wf : rb.WF)
+    (hq : rb.abs = Spec.encode v f ++ rest) :
+    (unpackRing v gz codec none rb).res = .pkt (packetOf f codec content ps) ∧
+    (unpackRing v gz codec none rb).pend = none ∧
+    (unpackRing v gz codec none rb).rb.WF ∧ (unpackRing v gz codec none rb).rb.abs = rest := by
+  obtain ⟨e1, e2, e3, e4⟩ := Frame.unpackRing_eq_abs v gz codec none rb wf
+  rw [hq, Frame.decode_accepts_stream v gz codec f content ps rest hv] at e1 e2 e4
+  exact ⟨e1, e2, e3, e4⟩
+
+/-- the read loop over back-to-back valid frames: the packets the frames denote, in order, then
+"need more data" on an empty queue (a fresh header parked: `some {}`, the idle state) -/
+theorem frames_decode_in_order (v : Ver) (gz : GzOracle) (codec : UInt8)
+    (fs : List (Spec.Frame × Bytes × List Metadata.Pair))
+    (hv : ∀ x ∈ fs, ValidFrame v gz x.1 x.2.1 x.2.2) :
+    run v gz codec (fs.map (fun x => Spec.encode v x.1)).flatten =
+      (fs.map (fun x => packetOf x.1 codec x.2.1 x.2.2), (.more, some {}, [])) :=
+  Frame.frames_decode_in_order v gz codec fs hv
+
+/-- THE STREAM YIELDS EACH FRAME. For any list of valid frames of the published layout sent back to
+back, and ANY chunking of the concatenation (cuts anywhere: inside a header, a length field, the
+metadata block, the body, the trailer; several frames per chunk; empty chunks), the connection
+delivers exactly one packet per frame, in order, and the i-th packet is the packet the one-shot
+decoder `UnpackBytes` returns on the i-th frame alone; no error verdict.
+(`Forall₂`: same length, related index by index — `forall₂_iff_getElem`.) -/
+theorem stream_yields_each_frame (v : Ver) (gz : GzOracle) (codec : UInt8) (fs : List Spec.Frame)
+    (hv : ∀ f ∈ fs, ∃ content ps, ValidFrame v gz f content ps)
+    (chunks : List Bytes) (hc : chunks.flatten = (fs.map (Spec.encode v)).flatten) :
+    ∃ qs, (feed v gz codec chunks).obs = (qs, none) ∧
+      Forall₂ (fun f q => unpackBytes v gz codec (Spec.encode v f) = .ok q) fs qs := by
+  have hden : ∃ qs, Forall₂ (Denotes v gz codec) fs qs := by
+    clear hc
+    induction fs with
+    | nil => exact ⟨[], .nil⟩
+    | cons f fs ih =>
+      obtain ⟨content, ps, hf⟩ := hv f (by simp)
+      obtain ⟨qs, hqs⟩ := ih (fun g hg => hv g (by simp [hg]))
+      exact ⟨_, .cons ⟨content, ps, hf, rfl⟩ hqs⟩
+  obtain ⟨qs, hqs⟩ := hden
+  refine ⟨qs, feed_frames v gz codec fs qs hqs chunks hc, hqs.imp ?_⟩
+  rintro f q ⟨content, ps, hf, rfl⟩
+  exact C02.decode_accepts v gz codec f content ps hf
+
+/-- the same as an equation between lists of results -/
+theorem stream_yields_each_frame_eq (v : Ver) (gz : GzOracle) (codec : UInt8) (fs : List Spec.Frame)
+    (hv : ∀ f ∈ fs, ∃ content ps, ValidFrame v gz f content ps)
+    (chunks : List Bytes) (hc : chunks.flatten = (fs.map (Spec.encode v)).flatten) :
+    (feed v gz codec chunks).obs.2 = none ∧
+    (feed v gz codec chunks).obs.1.map Res.ok = fs.map (fun f => unpackBytes v gz codec (Spec.encode v f)) := by
+  obtain ⟨qs, h1, h2⟩ := stream_yields_each_frame v gz codec fs hv chunks hc
+  rw [h1]
+  refine ⟨rfl, ?_⟩
+  clear h1 hv hc
+  induction h2 with
+  | nil => rfl
+  | cons hab _ ih => simp only [List.map_cons, hab]; exact congrArg _ ih
+
+/-- … and over the real ring buffer, from any well-formed empty ring (any capacity, any offsets) -/
+theorem ring_stream_yields_each_frame (v : Ver) (gz : GzOracle) (codec : UInt8) (fs : List Spec.Frame)
+    (hv : ∀ f ∈ fs, ∃ content ps, ValidFrame v gz f content ps)
+    (rb0 : Ring) (wf : rb0.WF) (he : rb0.abs = [])
+    (chunks : List Bytes) (hc : chunks.flatten = (fs.map (Spec.encode v)).flatten) :
+    ∃ qs, (rfeed v gz codec rb0 chunks).obs = (qs, none) ∧
+      Forall₂ (fun f q => unpackBytes v gz codec (Spec.encode v f) = .ok q) fs qs := by
+  rw [rfeed_obs v gz codec rb0 wf he chunks]
+  exact stream_yields_each_frame v gz codec fs hv chunks hc
+
+/-! non-vacuity: a v1 push frame and a v1 request frame (reserve bits 01) back to back, 19 bytes;
+whatever the chunking, both packets are delivered, in order -/
+private def fPush : Spec.Frame := { type := 3, verify := 0, gzip := 0, reserve := 0, cmd := 7, body := [9, 8] }
+private def fReq : Spec.Frame :=
+  { type := 1, verify := 0, gzip := 0, reserve := 1, cmd := 5, rid := 258, timeout := 3, body := [1] }
+
+private theorem fPush_valid : ValidFrame .v1 gz0 fPush [9, 8] [] :=
+  { type := by decide, verify := by decide, gzip := by decide, reserve := by decide, cmd := by decide
+    rid := by decide, timeout := by decide, status := by decide, nonce := by decide, sig := by decide
+    body := by decide, md1 := fun _ => ⟨rfl, rfl⟩, mdlen := by decide
+    md2 := by intro h; cases h
+    gz1 := by intro h; cases h
+    gz0 := fun _ => rfl }
+
+private theorem fReq_valid : ValidFrame .v1 gz0 fReq [1] [] :=
+  { type := by decide, verify := by decide, gzip := by decide, reserve := by decide, cmd := by decide
+    rid := by decide, timeout := by decide, status := by decide, nonce := by decide, sig := by decide
+    body := by decide, md1 := fun _ => ⟨rfl, rfl⟩, mdlen := by decide
+    md2 := by intro h; cases h
+    gz1 := by intro h; cases h
+    gz0 := fun _ => rfl }
+
+example : Spec.encode .v1 fPush ++ Spec.encode .v1 fReq =
+    [3, 7, 0, 0, 2, 9, 8, 65, 5, 0, 0, 1, 2, 0, 3, 0, 0, 1, 1] := by decide
+
+example (chunks : List Bytes)
+    (hc : chunks.flatten = [3, 7, 0, 0, 2, 9, 8, 65, 5, 0, 0, 1, 2, 0, 3, 0, 0, 1, 1]) :
+    (feed .v1 gz0 0 chunks).obs =
+      ([{ type := .push, cmd := 7, body := [9, 8] },
+        { type := .request, cmd := 5, rid := 258, timeout := 3, body := [1] }], none) := by
+  have hv : ∀ f ∈ [fPush, fReq], ∃ content ps, ValidFrame .v1 gz0 f content ps := by
+    intro f hf
+    simp only [List.mem_cons, List.not_mem_nil, or_false] at hf
+    rcases hf with rfl | rfl
+    · exact ⟨_, _, fPush_valid⟩
+    · exact ⟨_, _, fReq_valid⟩
+  obtain ⟨qs, h1, h2⟩ := stream_yields_each_frame .v1 gz0 0 [fPush, fReq] hv chunks (by rw [hc]; decide)
+  have d1 : unpackBytes .v1 gz0 0 (Spec.encode .v1 fPush) = .ok { type := .push, cmd := 7, body := [9, 8] } := by
+    decide
+  have d2 : unpackBytes .v1 gz0 0 (Spec.encode .v1 fReq) =
+      .ok { type := .request, cmd := 5, rid := 258, timeout := 3, body := [1] } := by decide
+  cases h2 with
+  | cons e1 ht => cases ht with
+    | cons e2 ht2 =>
+      cases ht2
+      rw [d1] at e1; rw [d2] at e2
+      injection e1 with e1; injection e2 with e2
+      rw [h1, ← e1, ← e2]
+
+/-- one concrete chunking, cut inside the first body-length field and inside the second request id -/
+example : (feed .v1 gz0 0 [[3, 7, 0], [0, 2, 9, 8, 65, 5, 0], [], [0, 1, 2, 0, 3, 0, 0, 1, 1]]).obs.1.length = 2 := by
+  have hv : ∀ f ∈ [fPush, fReq], ∃ content ps, ValidFrame .v1 gz0 f content ps := by
+    intro f hf
+    simp only [List.mem_cons, List.not_mem_nil, or_false] at hf
+    rcases hf with rfl | rfl
+    · exact ⟨_, _, fPush_valid⟩
+    · exact ⟨_, _, fReq_valid⟩
+  obtain ⟨qs, h1, h2⟩ := stream_yields_each_frame .v1 gz0 0 [fPush, fReq] hv
+    [[3, 7, 0], [0, 2, 9, 8, 65, 5, 0], [], [0, 1, 2, 0, 3, 0, 0, 1, 1]] (by decide)
+  rw [h1]; exact h2.length_eq.symm
+
+/-- one call, v2: the example frame of C02 (response, verify, reserve = 2, one metadata pair) followed
+by arbitrary bytes is delivered in full — 16-byte signature, not "all trailing bytes" — and exactly
+the trailing bytes stay queued -/
+example (gz : GzOracle) (rest : Bytes) :
+    unpackAbs .v2 gz 1 none (Spec.encode .v2 C02.exFrame ++ rest) =
+      (.pkt { type := .response, cmd := 7, rid := 0x01020304, status := 9, verify := true, nonce := 5
+              signature := List.replicate 16 0xAA, values := [([0x61], [0x78])], codec := 1, body := [1, 2, 3] },
+       none, rest) := by
+  rw [decode_accepts_stream .v2 gz 1 C02.exFrame _ _ rest (C02.exFrame_valid gz)]
+  have : packetOf C02.exFrame 1 [1, 2, 3] [([0x61], [0x78])] =
+      { type := .response, cmd := 7, rid := 0x01020304, status := 9, verify := true, nonce := 5
+        signature := List.replicate 16 0xAA, values := [([0x61], [0x78])], codec := 1, body := [1, 2, 3] } := by decide
+  rw [this]
+
+private def twoFrames : List (Spec.Frame × Bytes × List Metadata.Pair) := [(fPush, [9, 8], []), (fReq, [1], [])]
+
+/-- the read loop on the two v1 frames above -/
+example : run .v1 gz0 0 [3, 7, 0, 0, 2, 9, 8, 65, 5, 0, 0, 1, 2, 0, 3, 0, 0, 1, 1] =
+    ([{ type := .push, cmd := 7, body := [9, 8] }, { type := .request, cmd := 5, rid := 258, timeout := 3, body := [1] }],
+     (.more, some {}, [])) := by
+  have := frames_decode_in_order .v1 gz0 0 twoFrames (by
+    unfold twoFrames
+    intro x hx
+    simp only [List.mem_cons, List.not_mem_nil, or_false] at hx
+    rcases hx with rfl | rfl
+    · exact fPush_valid
+    · exact fReq_valid)
+  have e : (twoFrames.map (fun x => Spec.encode .v1 x.1)).flatten =
+      [3, 7, 0, 0, 2, 9, 8, 65, 5, 0, 0, 1, 2, 0, 3, 0, 0, 1, 1] := by decide
+  rw [e] at this
+  rw [this]; decide
 
 end OAP.C03
